@@ -332,6 +332,61 @@ fn send_after_unstarted_body(period_ms: u64, hold: usize) -> vsched::Body {
     })
 }
 
+/// the target leaves the running states but takes several periods to reach Stopped (a post_stop that sleeps, or
+/// a drain with a slow backlog): the interval task ends within one period of the target LEAVING THE RUNNING
+/// STATES, not of its reaching Stopped, and builds at most one more message
+fn interval_slow_exit_body(period_ms: u64, drain: bool) -> vsched::Body {
+    Arc::new(move || {
+        Box::pin(async move {
+            let log = Log::default();
+            let p = period_ms * MS;
+            let prog = Prog { post_stop: vec![Step::SleepMs(4 * period_ms)], ..Default::default() };
+            let (a, ah) = Actor::spawn(None, Probe, args("A", prog, &log)).await.expect("A");
+            let built = Arc::new(std::sync::atomic::AtomicUsize::new(0));
+            let b2 = built.clone();
+            let t0 = vsched::now();
+            let h = if derived() {
+                a.get_derived::<DMsg>().send_interval(Duration::from_millis(period_ms), move || {
+                    b2.fetch_add(1, std::sync::atomic::Ordering::SeqCst);
+                    DMsg(1, vec![])
+                })
+            } else {
+                a.send_interval(Duration::from_millis(period_ms), move || {
+                    b2.fetch_add(1, std::sync::atomic::Ordering::SeqCst);
+                    do_msg(1, vec![])
+                })
+            };
+            vsched::sleep(Duration::from_nanos(2 * p + p / 4)).await;
+            let built_before = built.load(std::sync::atomic::Ordering::SeqCst);
+            if drain {
+                let _ = a.cast(do_msg(9, vec![Step::SleepMs(4 * period_ms)]));
+                let _ = a.drain();
+            } else {
+                a.stop(None);
+            }
+            // one period and a half later the target is still on its way out, the timer task must be gone
+            vsched::sleep(Duration::from_nanos(p + p / 2)).await;
+            let status = a.get_status();
+            let finished = h.is_finished();
+            let _ = ah.await;
+            vsched::quiesce_time();
+            let built_after = built.load(std::sync::atomic::Ordering::SeqCst) - built_before;
+            let mut bad = Vec::new();
+            if status == ractor::ActorStatus::Stopped {
+                bad.push("(harness) the target was meant to be still on its way out".to_string());
+            }
+            if !finished {
+                bad.push(format!("the interval task is still alive one and a half periods after its target left the running states (the target is {status:?}, started at {t0} ns)"));
+            }
+            if built_after > 1 {
+                bad.push(format!("{built_after} interval messages were built after the target had left the running states"));
+            }
+            h.abort();
+            Outcome { key: format!("finished={finished} built_after={built_after} status={status:?}"), violations: bad }
+        })
+    })
+}
+
 fn exit_kill_after_body(period_ms: u64, kill: bool, busy: bool) -> vsched::Body {
     exit_kill_after_body_x(period_ms, kill, busy, false)
 }
@@ -512,6 +567,9 @@ pub fn plan(tier: &str) -> Plan {
     }
     for (p, kill) in [(0u64, false), (5, false), (5, true)] {
         mk(&mut units, dv, format!("{}/{p}ms/instant-target", if kill { "kill_after" } else { "exit_after" }), cfg.clone(), Some(bound), exit_kill_after_body_x(p, kill, false, true));
+    }
+    for (p, drain) in [(2u64, false), (2, true), (5, false)] {
+        mk(&mut units, dv, format!("interval/{p}ms/slow-exit-{}", if drain { "drain" } else { "stop" }), cfg.clone(), Some(bound), interval_slow_exit_body(p, drain));
     }
     for (p, hold) in [(0u64, 0usize), (5, 0), (1, 3)] {
         mk(&mut units, dv, format!("send_after/{p}ms/instant-target-hold{hold}"), cfg.clone(), Some(bound), send_after_unstarted_body(p, hold));
